@@ -94,3 +94,50 @@ Definition spec_C_convertToT2toST2 (N : nat) (b : M4) : M4 := symL b.
 Definition spec_D_tpld (N : nat) (b : M2) : M4 := symR (tpld4 b).
 Definition spec_D_tprd (N : nat) (a : M2) : M4 := symR (tprd4 a).
 
+
+(* ---- extensions (round 4) *)
+Definition spec_C_lapply (N : nat) (s : M2) (c : M4) : M2 := mul24 s c.
+Definition spec_D_lapply (N : nat) (t : M2) (c : M4) : M2 := mul24 t c.
+Definition spec_st_otimes (N : nat) (a b : M2) : M4 := otimes a b.
+Definition spec_ts_otimes (N : nat) (a b : M2) : M4 := otimes a b.
+Definition spec_C_expr (N : nat) (a b : M4) (x : R) : M4 :=
+  add4 (sub4 (scal4 2 a) (scal4 (/ 3) b)) (scal4 x (scal4 (-1) a)).
+Definition spec_D_expr (N : nat) (a b : M4) (x : R) : M4 :=
+  add4 (sub4 (scal4 2 a) (scal4 (/ 3) b)) (scal4 x (scal4 (-1) a)).
+Definition spec_A_dsquare2 (N : nat) (s : M2) (c : M4) : M4 := mul44 (symR (add4 (tpld4 s) (tprd4 s))) c.
+Definition spec_D_tpld2 (N : nat) (b : M2) (c : M4) : M4 := mul44 (symR (tpld4 b)) c.
+Definition spec_D_tprd2 (N : nat) (a : M2) (c : M4) : M4 := mul44 (symR (tprd4 a)) c.
+(* J3 = det(dev s), dev s = K : s is linear in s:  d2 J3 / ds2 = K : d2det(dev s) : K *)
+Definition dev2 (s : M2) : M2 := sub2 s (scal2 (trace2 s / 3) Id2).
+Definition K4s : M4 := sub4 IdS4 (scal4 (/ 3) IxI4).
+Definition spec_A_dev_d2det (N : nat) (s : M2) : M4 := mul44 (mul44 K4s (symL (symR (d2det4 (dev2 s))))) K4s.
+Definition spec_A_pull_back (N : nat) (c : M4) (F : M2) : M4 := pf4 (inv2 F) c.
+(* buildFromFortranMatrix reads a column-major 3x3 matrix *)
+Definition spec_t_fromFortran (N : nat) (m : M2) : M2 := tr2 m.
+
+(* ---- polar decomposition F = R U.  The code evaluates the Hoger-Carlson closed form of U = sqrt(C), C = F^T F, from the
+   eigenvalues vp of C (u_k = sqrt vp_k, i1 i2 i3 the invariants of U):
+     U = (- C^2 + (i1^2 - i2) C + i1 i3 I) / (i1 i2 - i3),   U^-1 = (C - i1 U + i2 I) / i3,   R = F U^-1.
+   These formulas are only the intermediate step of the proofs (coq/Polar.v shows that they do give U^2 = C,
+   R^T R = I, R U = F when vp are the eigenvalues of C); in 1D the code returns U = F, R = I. *)
+Definition polar_i1 (v : nat -> R) : R := sqrt (v 0%nat) + sqrt (v 1%nat) + sqrt (v 2%nat).
+Definition polar_i2 (v : nat -> R) : R :=
+  sqrt (v 0%nat) * sqrt (v 1%nat) + sqrt (v 0%nat) * sqrt (v 2%nat) + sqrt (v 1%nat) * sqrt (v 2%nat).
+Definition polar_i3 (v : nat -> R) : R := sqrt (v 0%nat) * sqrt (v 1%nat) * sqrt (v 2%nat).
+Definition polar_den (N : nat) (v : nat -> R) : R :=
+  match N with 1%nat => 1 | _ => (polar_i1 v * polar_i2 v - polar_i3 v) * polar_i3 v end.
+Definition polarP (C : M2) (i1 i2 i3 : R) : M2 :=
+  fun i j => - mul2 C C i j + (i1 * i1 - i2) * C i j + i1 * i3 * delta i j.
+Definition polarU (C : M2) (i1 i2 i3 : R) : M2 := fun i j => polarP C i1 i2 i3 i j / (i1 * i2 - i3).
+Definition polarU1 (C : M2) (i1 i2 i3 : R) : M2 :=
+  fun i j => (C i j - i1 * polarU C i1 i2 i3 i j + i2 * delta i j) / i3.
+Definition spec_t_polar_U (N : nat) (F : M2) (v : nat -> R) : M2 :=
+  match N with
+  | 1%nat => F
+  | _ => polarU (mul2 (tr2 F) F) (polar_i1 v) (polar_i2 v) (polar_i3 v)
+  end.
+Definition spec_t_polar_R (N : nat) (F : M2) (v : nat -> R) : M2 :=
+  match N with
+  | 1%nat => Id2
+  | _ => mul2 F (polarU1 (mul2 (tr2 F) F) (polar_i1 v) (polar_i2 v) (polar_i3 v))
+  end.
